@@ -1513,7 +1513,8 @@ where
         ) {
             *nb_functions_total += 1;
         }
-        rva += if is_32 { 4 } else { 8 };
+        // `rva` starts at the (attacker-controlled) first thunk address: do not overflow.
+        rva = rva.wrapping_add(if is_32 { 4 } else { 8 });
     }
     functions
 }
@@ -2048,7 +2049,11 @@ impl Pe {
         // 64 is the offset of the checksum in the optional header, and 24 is the offset of the
         // optional header in the nt headers: See
         // <https://docs.microsoft.com/en-us/windows/win32/debug/pe-format>
-        let csum_offset = dos_header.nt_headers_offset() + 64 + 24;
+        // The offset of the nt headers is read from the file: compute in usize, a u32 sum can
+        // overflow.
+        let csum_offset = usize::try_from(dos_header.nt_headers_offset())
+            .ok()?
+            .checked_add(64 + 24)?;
 
         // Add data as LE u32 with overflow
         let mut csum: u64 = 0;
